@@ -788,3 +788,47 @@ def vis1(cfg):
             res.find(f, f.loc, '%s returns %s, expected %s of the leaf on top of the iterator stack: the scan would show its visitor a key / value that is not the entry it stands on' % (sh(f.name)[:70], rets, ' or '.join(want)), key='VIS-1:%s:%s' % ('visitor' if f.cls.startswith('unodb::visitor<') else 'iterator', f.short), config=cfg.name)
     res.floor('accessors', 16)
     return res
+
+
+def stack1(cfg):
+    """STACK-1: the push / pop primitives of the iterators really change the stack"""
+    from ..engine import reachable_from
+    res = RuleResult('STACK-1', 'the stack primitives of the iterators do what the step functions count on (ITER-5 counts calls): every path through push / push_leaf (db) and every path through try_push / try_push_leaf (olc_db) passes a std::stack::push on the iterator stack (directly or through another primitive of the family), and every path through pop passes a std::stack::pop - an iterator whose push files nothing loses its position: the scan ends early or walks siblings of the wrong node')
+    FAMILY = ('push', 'push_leaf', 'try_push', 'try_push_leaf')
+    n = 0
+    for f in [g for g in cfg.functions if g.blocks and ITER_CLS.match(g.cls)]:
+        if f.short not in FAMILY + ('pop',):
+            continue
+        want = 'pop' if f.short == 'pop' else 'push'
+        steps = set()
+        for b, i, e in f.elements():
+            if e.get('k') != 'call' or is_assert_elem(e):
+                continue
+            if e.get('name') == want and (e.get('cls') or '').startswith('std::stack<'):
+                steps.add(b)
+            elif want == 'push' and e.get('name') in FAMILY and (e.get('cls') or '') == f.cls:
+                steps.add(b)
+        n += 1
+        res.functions.add(f.sig)
+        # is the exit reachable from the entry without passing a step block?
+        seen = set()
+        work = [f.entry]
+        leak = False
+        while work:
+            x = work.pop()
+            if x in seen or x is None:
+                continue
+            seen.add(x)
+            if x in steps:
+                continue
+            if x == f.exit:
+                leak = True
+                break
+            work.extend(f.succs(x))
+        ok = bool(steps) and not leak
+        res.ob(ok, {'rule': 'STACK-1', 'function': sh(f.sig)[:110], 'site': fileline(f.loc), 'stack_steps': len(steps), 'verdict': 'discharged' if ok else 'VIOLATION'})
+        if not ok:
+            res.find(f, f.loc, '%s: %s - the step functions (next / prior / seek / the traversals) rely on every call of this primitive changing the stack by one entry; with an entry missing the iterator resumes from the wrong node: scans skip or repeat keys' % (f.short, 'no std::stack::%s on the iterator stack at all' % want if not steps else 'a path reaches the end of the function without a std::stack::%s' % want), key='STACK-1:%s' % f.short, config=cfg.name)
+    res.count('stack primitives', n)
+    res.floor('stack primitives', 12)
+    return res
